@@ -1,0 +1,48 @@
+//go:build verif
+
+// Verification hooks for property C03 (tunnel transparency). Add-only; compiled
+// only with -tags verif. Nothing here is called from production code.
+
+package forwarder
+
+import (
+	"errors"
+	"net"
+	"net/http"
+	"time"
+
+	"github.com/saucelabs/forwarder/internal/martian"
+)
+
+// VerifC03Serve serves the configured proxy on a caller-supplied listener, the
+// same way Run does for the proxy's own listeners. The caller may hand in a
+// listener whose connections gate and record Read/Write/CloseWrite/Close.
+func (hp *HTTPProxy) VerifC03Serve(l net.Listener) error {
+	if hp.config.TestingHTTPHandler {
+		srv := http.Server{
+			Handler:           hp.handler(),
+			IdleTimeout:       hp.config.IdleTimeout,
+			ReadTimeout:       hp.config.ReadTimeout,
+			ReadHeaderTimeout: hp.config.ReadHeaderTimeout,
+			WriteTimeout:      hp.config.WriteTimeout,
+		}
+		err := srv.Serve(l)
+		if errors.Is(err, http.ErrServerClosed) {
+			err = nil
+		}
+		return err
+	}
+	err := hp.proxy.Serve(l)
+	if errors.Is(err, net.ErrClosed) {
+		err = nil
+	}
+	return err
+}
+
+// VerifC03SetTunnelGrace sets the tunnel's forced-close grace period and returns the previous value.
+func VerifC03SetTunnelGrace(d time.Duration) time.Duration {
+	return martian.VerifC03SetTunnelGrace(d)
+}
+
+// VerifC03CopyBufLen returns the length of the tunnel copy buffer.
+func VerifC03CopyBufLen() int { return martian.VerifC03CopyBufLen() }
